@@ -466,3 +466,222 @@ example : IsUnit ((!![1, 1, 1; 0, 1, 2] : Matrix (Fin 2) (Fin 3) ℚ) * (!![1, 1
   norm_num
 
 end IrisVerif.C18
+
+/-! ## Part 5: rejection branches, non-vacuity by kernel evaluation, prior dummy observations (statement audit, round 5) -/
+
+namespace IrisVerif.C18
+open Matrix
+open IrisVerif IrisVerif.RedVar
+
+
+/-! ### the rejection branches of the model: it rejects exactly what the code rejects -/
+
+/-- every other rejection is one of the two numerical ones, and each has its cause: `singular` = a (checked) solve of normal
+equations found no solution — of the main regression or, with priors, of the scaling pre-regression; `dofZero` = the covariance
+denominator `T_fitted − num_rhs·dof` is zero -/
+theorem estimate_error_cases (s : Spec) (dof : Bool) (Y X : OMat) (pr : Option (List Prior)) (er : Err)
+    (h : estimate s dof Y X pr = .error er) :
+    (er = .noData ∧ fitted s Y X = []) ∨
+    (er = .singular ∧ (priorScalingOk s Y X (fitted s Y X) pr = false ∨
+        ols (lhsFull s Y (fitted s Y X) pr) (rhsFull s Y X (fitted s Y X) pr) = none)) ∨
+    (er = .dofZero ∧ ((fitted s Y X).length : Int) - (if dof then (dofCount s : Int) else 0) = 0) := by
+  unfold estimate at h
+  simp only at h
+  split at h
+  · rename_i h0
+    injection h with h
+    exact Or.inl ⟨h.symm, List.eq_nil_of_length_eq_zero h0⟩
+  · split at h
+    · rename_i hp
+      injection h with h
+      exact Or.inr (Or.inl ⟨h.symm, Or.inl (by simpa using hp)⟩)
+    split at h
+    · rename_i hols
+      injection h with h
+      exact Or.inr (Or.inl ⟨h.symm, Or.inr hols⟩)
+    · generalize hden : ((fitted s Y X).length : Int) - (if dof = true then (dofCount s : Int) else 0) = denom at h ⊢
+      split at h
+      · rename_i hd
+        injection h with h
+        exact Or.inr (Or.inr ⟨h.symm, hd⟩)
+      · cases h
+
+/-- "No data available for estimation after removing periods with missing observations": raised iff no base period is complete -/
+theorem estimate_noData_iff (s : Spec) (dof : Bool) (Y X : OMat) (pr : Option (List Prior)) :
+    estimate s dof Y X pr = .error .noData ↔ fitted s Y X = [] := by
+  constructor
+  · intro h
+    rcases estimate_error_cases s dof Y X pr _ h with h1 | h1 | h1
+    · exact h1.2
+    · exact absurd h1.1 (fun h => by cases h)
+    · exact absurd h1.1 (fun h => by cases h)
+  · intro h
+    unfold estimate
+    simp only
+    rw [if_pos (by rw [h]; rfl)]
+
+/-! ### non-vacuity of the theorems about `estimate` (kernel evaluation of the executable model) -/
+
+/-- AR(1) with intercept on `y = 1, 2, 4, 8, 15`: four complete base periods, a successful estimate -/
+def exY : OMat := OMat.ofFn 1 5 (fun _ j => some (if j = 4 then 15 else (2 : Rat) ^ j))
+def exX : OMat := OMat.ofFn 0 5 (fun _ _ => none)
+
+example : fitted ⟨1, 0, 1, true⟩ exY exX = [0, 1, 2, 3] := by decide +kernel
+example : (match estimate ⟨1, 0, 1, true⟩ false exY exX none with | .ok _ => true | .error _ => false) = true := by
+  decide +kernel
+-- with a Minnesota and a mean prior (dummy observations appended) the estimate still succeeds
+example : (match estimate ⟨1, 0, 1, true⟩ true exY exX (some [.minnesota #[1/2] 2 1, .mean #[1] 1]) with
+    | .ok _ => true | .error _ => false) = true := by
+  decide +kernel
+-- the rejection branches are reachable: no complete period / exactly collinear regressors / zero denominator
+example : (match estimate ⟨1, 0, 1, true⟩ false (OMat.ofFn 1 3 (fun _ _ => none)) (OMat.ofFn 0 3 (fun _ _ => none)) none with
+    | .error .noData => true | _ => false) = true := by decide +kernel
+example : (match estimate ⟨1, 0, 1, true⟩ false (OMat.ofFn 1 4 (fun _ _ => some 1)) (OMat.ofFn 0 4 (fun _ _ => none)) none with
+    | .error .singular => true | _ => false) = true := by decide +kernel
+example : (match estimate ⟨1, 0, 1, true⟩ true (OMat.ofFn 1 3 (fun _ j => some (j * j : Nat))) (OMat.ofFn 0 3 (fun _ _ => none)) none with
+    | .error .dofZero => true | _ => false) = true := by decide +kernel
+
+/-- the hypothesis of `mean_fixed_point` / `mean_unique` is met by a non-trivial VAR(1): `A = 1/2`, `c = 3`, `μ = 6` -/
+example : (1 - ∑ l : Fin 1, (fun _ => (!![1/2] : Matrix (Fin 1) (Fin 1) ℚ)) l) *ᵥ ![6] = ![3] := by
+  ext i; fin_cases i
+  simp [Matrix.mulVec, dotProduct]
+  norm_num
+
+
+
+/-! ### prior dummy observations: estimation with priors IS least squares on `[data | dummies]` -/
+
+theorem hstack_get (a b : QMat) (i j : Nat) (hi : i < a.rows) (hj : j < a.cols + b.cols) :
+    (QMat.hstack a b).get i j = if j < a.cols then a.get i j else b.get i (j - a.cols) := by
+  unfold QMat.hstack
+  rw [get_ofFn]
+  simp [hi, hj]
+
+/-- the design of a successful estimate: the fitted data columns followed by the dummy observations of the priors, in the
+order the priors were given (`hstack([lhs_est, lhs_dummy])`, `hstack([rhs_est, rhs_dummy])`) -/
+theorem estimate_design (s : Spec) (dof : Bool) (Y X : OMat) (pr : Option (List Prior)) (e : Estimate)
+    (h : estimate s dof Y X pr = .ok e) :
+    e.lhsEst = lhsFull s Y (fitted s Y X) pr ∧ e.rhsEst = rhsFull s Y X (fitted s Y X) pr := by
+  unfold estimate at h
+  simp only at h
+  split at h
+  · cases h
+  · split at h
+    · cases h
+    split at h
+    · cases h
+    · generalize ((fitted s Y X).length : Int) - (if dof = true then (dofCount s : Int) else 0) = denom at h
+      split at h
+      · cases h
+      · injection h with h
+        subst h
+        exact ⟨rfl, rfl⟩
+
+/-- one prior: the dummy block is that prior's columns -/
+theorem dummy_single (s : Spec) (pr : Prior) :
+    dummyLhs s [pr] = QMat.hstack (QMat.zero s.n 0) (pr.lhs s) ∧
+    dummyRhs s [pr] = QMat.hstack (QMat.zero s.numRhs 0) (pr.rhs s) := ⟨rfl, rfl⟩
+
+/-- several priors: each further prior appends its columns on the right -/
+theorem dummy_snoc (s : Spec) (ps : List Prior) (pr : Prior) :
+    dummyLhs s (ps ++ [pr]) = QMat.hstack (dummyLhs s ps) (pr.lhs s) ∧
+    dummyRhs s (ps ++ [pr]) = QMat.hstack (dummyRhs s ps) (pr.rhs s) := by
+  unfold dummyLhs dummyRhs
+  simp [List.foldl_append]
+
+/-- **Mean prior: the lagged block is stacked lag by lag** (`tile`, not `repeat`): in the single dummy column, the row of lag
+`l+1` of variable `i` (row `l·n + i`) holds `mean_i·μ` for EVERY lag, the exogenous rows hold 0 and the intercept row holds `μ`;
+the left-hand side holds `mean_i·μ`. (No column at all without an intercept.) -/
+theorem mean_prior_entries (s : Spec) (mbar : Array Rat) (mu : Rat) (hic : s.icpt = true) :
+    (∀ l i, l < s.p → i < s.n → ((Prior.mean mbar mu).rhs s).get (l * s.n + i) 0 = mbar.getD i 0 * mu) ∧
+    (∀ k, k < s.m → ((Prior.mean mbar mu).rhs s).get (s.numLagged + k) 0 = 0) ∧
+    ((Prior.mean mbar mu).rhs s).get (s.numLagged + s.m) 0 = mu ∧
+    (∀ i, i < s.n → ((Prior.mean mbar mu).lhs s).get i 0 = mbar.getD i 0 * mu) := by
+  have hK : s.numRhs = s.numLagged + s.m + 1 := by unfold Spec.numRhs Spec.numNonendog; rw [hic]; simp; omega
+  refine ⟨?_, ?_, ?_, ?_⟩
+  · intro l i hl hi
+    have hlt : l * s.n + i < s.numLagged := by
+      unfold Spec.numLagged
+      calc l * s.n + i < l * s.n + s.n := by omega
+        _ = (l + 1) * s.n := by rw [Nat.add_mul, Nat.one_mul]
+        _ ≤ s.p * s.n := Nat.mul_le_mul_right _ hl
+        _ = s.n * s.p := Nat.mul_comm _ _
+    unfold Prior.rhs
+    rw [get_ofFn, if_pos ⟨by omega, by rw [hic]; simp⟩, if_pos hlt]
+    have : (l * s.n + i) % s.n = i := by
+      rw [Nat.add_comm, Nat.add_mul_mod_self_right, Nat.mod_eq_of_lt hi]
+    rw [this]
+  · intro k hk
+    unfold Prior.rhs
+    rw [get_ofFn, if_pos ⟨by omega, by rw [hic]; simp⟩, if_neg (by omega), if_pos (by omega)]
+  · unfold Prior.rhs
+    rw [get_ofFn, if_pos ⟨by omega, by rw [hic]; simp⟩, if_neg (by omega), if_neg (by omega)]
+  · intro i hi
+    unfold Prior.lhs
+    rw [get_ofFn, if_pos ⟨hi, by rw [hic]; simp⟩]
+
+/-- **Minnesota prior**: one dummy column per lagged regressor; column `l·n + i` has `μ·(l+1)^κ` in its own lagged row and 0
+elsewhere (also in the exogenous and intercept rows), and on the left-hand side `μ·ρ_i` for the first lag (`l = 0`) and 0 for the
+higher lags -/
+theorem minnesota_prior_entries (s : Spec) (rho : Array Rat) (mu : Rat) (kappa : Nat) :
+    (∀ r j, r < s.numRhs → j < s.n * s.p → ((Prior.minnesota rho mu kappa).rhs s).get r j
+        = if r < s.numLagged ∧ r = j then mu * (((r / s.n + 1 : Nat) : Rat) ^ kappa) else 0) ∧
+    (∀ i j, i < s.n → j < s.n * s.p → ((Prior.minnesota rho mu kappa).lhs s).get i j
+        = if i = j then mu * rho.getD i 0 else 0) := by
+  constructor
+  · intro r j hr hj
+    unfold Prior.rhs
+    rw [get_ofFn, if_pos ⟨hr, hj⟩]
+  · intro i j hi hj
+    unfold Prior.lhs
+    rw [get_ofFn, if_pos ⟨hi, hj⟩]
+
+/-- **With priors the estimate is ordinary least squares on the data followed by the dummy observations**: the design of a
+successful estimate with one prior is `[fitted data columns | that prior's dummy columns]` (entries above), and the coefficient
+matrix satisfies the normal equations of exactly this design (`estimate_normal_equations`; hence, by `normalEq_minimises`
+through the bridge `QMatBridge.estimate_minimises`, it minimises the sum of squares over data and dummies together). -/
+theorem estimate_with_prior_design (s : Spec) (dof : Bool) (Y X : OMat) (pr : Prior) (e : Estimate)
+    (h : estimate s dof Y X (some [pr]) = .ok e) :
+    e.lhsEst = QMat.hstack (lhsData s Y (fitted s Y X)) (QMat.hstack (QMat.zero s.n 0) (pr.lhs s)) ∧
+    e.rhsEst = QMat.hstack (rhsData s Y X (fitted s Y X)) (QMat.hstack (QMat.zero s.numRhs 0) (pr.rhs s)) ∧
+    ∃ x : QMat, e.beta = x.transpose ∧ QMat.eqv (normalMx e.rhsEst * x) (normalMy e.lhsEst e.rhsEst) = true := by
+  obtain ⟨h1, h2⟩ := estimate_design s dof Y X _ e h
+  obtain ⟨x, hx1, hx2, _⟩ := estimate_normal_equations s dof Y X _ e h
+  exact ⟨h1, h2, x, hx1, hx2⟩
+
+-- non-vacuity: order 2, two variables, intercept: the mean-prior dummy column is (m0, m1, m0, m1 | 1)·μ -- lag by lag
+example : ((List.range 5).map (fun r => ((Prior.mean #[3, 5] 2).rhs ⟨2, 0, 2, true⟩).get r 0)) = [6, 10, 6, 10, 2] := by
+  decide +kernel
+
+
+end IrisVerif.C18
+
+/-! ## Part 6: the variant loops -/
+
+namespace IrisVerif.C18
+open IrisVerif IrisVerif.RedVar
+
+/-- **Variant locality of `estimate`**: the result for variant `k` is the estimate of variant `k`'s data alone — no other
+variant's data, coefficients or residuals enter; and there are as many results as data variants -/
+theorem estimateVariants_local (s : Spec) (dof : Bool) (pr : Option (List Prior)) (datas : List (OMat × OMat)) :
+    (estimateVariants s dof pr datas).length = datas.length ∧
+    ∀ k (hk : k < datas.length), (estimateVariants s dof pr datas)[k]? = some (estimate s dof datas[k].1 datas[k].2 pr) := by
+  unfold estimateVariants
+  refine ⟨by simp, fun k hk => ?_⟩
+  simp [List.getElem?_map, List.getElem?_eq_getElem hk]
+
+/-- **Variant locality of `simulate`**: path `k` is the simulation of variant `k` with its own `A`, `B`, `c`, exogenous data and
+residuals (so the exogenous impact of variant `k` is `B_k x_k`, never another variant's) -/
+theorem simulateVariants_local (s : Spec) (ts : List Nat) (vs : List SimVariant) :
+    (simulateVariants s ts vs).length = vs.length ∧
+    ∀ k (hk : k < vs.length), (simulateVariants s ts vs)[k]? =
+      some (simulate s vs[k].A vs[k].B vs[k].c vs[k].X vs[k].E vs[k].path0 ts) := by
+  unfold simulateVariants
+  refine ⟨by simp, fun k hk => ?_⟩
+  simp [List.getElem?_map, List.getElem?_eq_getElem hk]
+
+-- non-vacuity: two data variants give two results, the second one from the second data set
+example : (estimateVariants ⟨1, 0, 1, true⟩ false none [(exY, exX), (OMat.ofFn 1 3 (fun _ _ => none), exX)]).length = 2 := by
+  decide +kernel
+
+end IrisVerif.C18
